@@ -21,7 +21,7 @@ COQC_TIMEOUT = 600
 
 def sh(cmd, timeout=None, cwd=None, env=None, input=None):
     e = dict(os.environ)
-    e.update({"PYTHONPATH": REPO, "PYTHONHASHSEED": "0", "NETCONAN_VERIF": "1"})
+    e.update({"PYTHONPATH": REPO, "PYTHONHASHSEED": "0", "NETCONAN_VERIF": "1", "NETCONAN_REPO": REPO})
     if env:
         e.update(env)
     try:
@@ -192,7 +192,7 @@ def run_impl(cases, hashseed="0", timeout=3000, extra_env=None, jobs=None):
     jobs = max(1, min(jobs, n // 50 or 1))
     chunks = [cases[i::jobs] for i in range(jobs)]
     env = dict(os.environ)
-    env.update({"PYTHONPATH": REPO, "PYTHONHASHSEED": str(hashseed), "NETCONAN_VERIF": "1"})
+    env.update({"PYTHONPATH": REPO, "PYTHONHASHSEED": str(hashseed), "NETCONAN_VERIF": "1", "NETCONAN_REPO": REPO})
     if extra_env:
         env.update(extra_env)
     procs = [
